@@ -463,6 +463,7 @@ def run(run: core.Run, tier: str):
   chain_lines, chain_meta = [], []
   judge_lines, judge_meta = [], []
   est_lines, est_meta = [], []
+  pop_lines, pop_meta = [], []
   inexact = 0
   n_pre = 0
 
@@ -532,6 +533,23 @@ def run(run: core.Run, tier: str):
         rep["types"]["bias"] = rec_of(item, "bias_quantizer")
         rep["types"]["impl"] = qtools_util.get_val(item, "multiplier").implemented_as()
       impl_reports.append(rep)
+    # interface.map_to_json: every record of the layer map against its _output_dict entry
+    for it in b.items:
+      item = lmap[it["layer"]]
+      jd = qt._output_dict[it["layer"].name]
+      pairs = [(qtools_util.get_val(item, "input_quantizer_list")[0], jd["input_quantizer_list"][0]),
+               (qtools_util.get_val(item, "output_quantizer"), jd.get("output_quantizer"))]
+      if it["kind"] == "layer":
+        for k_ in ("weight_quantizer", "bias_quantizer"):
+          pairs.append((qtools_util.get_val(item, k_), jd.get(k_)))
+        for k_ in ("multiplier", "accumulator", "fused_accumulator"):
+          pairs.append((qtools_util.get_val(item, k_).output, jd.get(k_)))
+      for qobj, jq in pairs:
+        if qobj is None and not jq:
+          continue
+        pop_lines.append({"op": "populate", "q": qtypes.to_rec(qobj)})
+        pop_meta.append((idx, it["layer"].name, {k_: int(v) for k_, v in (jq or {}).items()
+                                                 if k_ in ("bits", "int_bits", "is_signed")}))
     chain_lines.append({"op": "chain", "src": qk_json(src_q), "nodes": b.nodes})
     chain_meta.append((idx, spec, key, impl_reports, b))
 
@@ -678,6 +696,13 @@ def run(run: core.Run, tier: str):
                                      "diffs": diffs}, ir, mr)
     mirrored[idx] = ok
 
+  outs = core.run_driver("C18", pop_lines)
+  for (idx, lname, jd), line, o in zip(pop_meta, pop_lines, outs):
+    run.compared += 1
+    if {k_: int(v) for k_, v in o.items()} != jd:
+      run.disagree("output_dict", {"model": idx, "layer": lname, "record": line["q"]}, jd, o)
+  run.count("output_dict_entries", len(pop_lines))
+
   # ------------------------------------------------------------------ Lean: clause oracle on values
   outs = core.run_driver("C18", judge_lines)
   n_vals = 0
@@ -714,8 +739,13 @@ def run(run: core.Run, tier: str):
       if bi >= 0:
         kmin = float(k.min())
         xmin_ = float(xin.min())
-        allneg = bool(np.all(k[..., int(loc[0][-1])] == kmin) and np.all(xin[bi] == xmin_) and kmin < 0 and xmin_ < 0
-                      and float(v) > 0)
+        co = int(loc[0][-1])
+        if meta["cls"] == "QDepthwiseConv2D":
+          dm = k.shape[-1]
+          kc = k[:, :, co // dm, co % dm]
+        else:
+          kc = k[..., co]
+        allneg = bool(np.all(kc == kmin) and np.all(xin[bi] == xmin_) and kmin < 0 and xmin_ < 0 and float(v) > 0)
       keyd.update({"entry": meta["entry"], "w_cls": meta["w_cls"], "w_alpha": meta["w_alpha"], "w_mode": meta["w_mode"],
                    "x_mode": meta["x_mode"], "m_mode": meta["m_mode"], "m_is_po2": meta["m_is_po2"],
                    "b_mode": meta["b_mode"], "n_is_pow2": meta["n_is_pow2"], "all_mostneg": allneg})
